@@ -203,6 +203,8 @@ def run(ctx):
         # every whitespace split point set: all points, and random subsets that keep the root token alone (F23)
         words = canon.split(" ")
         variants.append((words, "split-all"))
+        variants.append((["select " + canon], "with-select"))        # the optional leading word, always (the canonical rendering omits it)
+        variants.append((["SELECT"] + words, "with-select-split"))
         for _ in range(2):
             parts, cur = [], words[0]
             for w_prev, w in zip(words, words[1:]):
@@ -232,9 +234,9 @@ def run(ctx):
             variants.append(([join(render(toks, rng, "mix"))], "mix"))
         if ctx.tier == "quick" and len(variants) > 14:
             # every keyword's case variant stays (group, by, where, order, from, the root options ...); the rest is sampled
-            kwcase = [v for v in variants[3:] if v[1].startswith("case:") and v[1][5:] in ("group", "by", "order", "where", "from", "limit", "into", "and", "or", "between", "depth", "mindepth", "sym", "arc", "dfs", "bfs", "desc")]
-            rest = [v for v in variants[3:] if v not in kwcase]
-            variants = variants[:3] + kwcase + rng.sample(rest, min(len(rest), 9))
+            kwcase = [v for v in variants[5:] if v[1].startswith("case:") and v[1][5:] in ("group", "by", "order", "where", "from", "limit", "into", "and", "or", "between", "depth", "mindepth", "sym", "arc", "dfs", "bfs", "desc")]
+            rest = [v for v in variants[5:] if v not in kwcase]
+            variants = variants[:5] + kwcase + rng.sample(rest, min(len(rest), 9))
         for v, d in variants:
             cases.append(([canon], v, d))
     # parsed query: real parser through the harness
@@ -264,7 +266,9 @@ def run(ctx):
         if len(st["samples"]) < 5 and d.startswith(("alias", "mix", "split-some")):
             st["samples"].append({"canonical": c, "variant": v, "kind": d})
     # rows: identical output of the binary (a sample)
-    sample = rowjobs if ctx.tier == "thorough" else rng.sample(rowjobs, min(len(rowjobs), 250))
+    must = [x for x in rowjobs if x[2] == "with-select"]
+    other = [x for x in rowjobs if x[2] != "with-select"]
+    sample = rowjobs if ctx.tier == "thorough" else must + rng.sample(other, min(len(other), 250))
 
     def one(job):
         c, v, d = job
@@ -280,6 +284,25 @@ def run(ctx):
                           observed=b["stdout"][:300], expected=a["stdout"][:300])
         else:
             st["agreed"] += 1
+    # every alias of the safe columns and of some functions as the FIRST word of the command line, with and without `select`
+    # (the first argument is also where the program looks for its own options)
+    fields, funcs = G[0], G[1]
+    firsts = []
+    for fk in ["FName", "FSize", "FPath", "FExtension", "FDirectory", "FIsDir", "FHardlinks", "FMode", "FFormattedSize", "FIsPipe", "FUserAll", "FAbsPath", "FIsHidden", "FIsFile", "FUid", "FInode"]:
+        if fk in fields:
+            firsts += [(a, a) for a in fields[fk]]
+    for fn in ["FnLower", "FnUpper", "FnLength", "FnHex", "FnToBase64", "FnInitCap", "FnBin", "FnOct"]:
+        if fn in funcs:
+            firsts += [("%s(name)" % a, a) for a in funcs[fn]]
+    fjobs = [([("%s, name from t order by name" % text)], ["select %s, name from t order by name" % text], "first-word:" + word) for text, word in firsts]
+    for (c, v, d), a, b in pmap(one, fjobs):
+        nrows += 1
+        if (a["status"], a["stdout"]) != (b["status"], b["stdout"]) or a["status"] != 0:
+            ctx.violation("impl-violates-spec", "a query whose first word is the column `%s` behaves differently with and without the optional `select` (status %s / %s)" % (d[11:], a["status"], b["status"]),
+                          input={"canonical_argv": c, "variant_argv": v}, observed=a["stdout"][:200], expected=b["stdout"][:200])
+        else:
+            st["agreed"] += 1
+            st["hist"]["first_word"] += 1
     # recorded finding F23 (argument splitting around the search root)
     for k in load_known():
         if k["property"] == "C11" and k["status"] == "known":
@@ -290,6 +313,6 @@ def run(ctx):
                 ctx.notes.append("%s: witness no longer fails; update KNOWN_FINDINGS.json" % k["id"])
     ctx.coverage.update(
         evaluations=len(cases) + nrows, distinct_nontrivial=len(st["distinct"]), traces_validated_against_impl=st["agreed"],
-        rule="valid queries from a typed generator (1-4 columns incl. functions/arithmetic, or aggregates with count(*) in either bracket style, root options (after FROM, or directly after the columns in a query without FROM), WHERE with all operator kinds, brackets, GROUP BY (directly after the root options and after WHERE), ORDER BY, LIMIT, INTO) x renderings: split at every whitespace, random split sets (keeping the search root alone in its argument, see F23), EVERY alias of every aliased token one at a time (alias groups read from the regenerated Field / Function / Op / arithmetic tables), a case variant of every word, the other bracket style, optional tokens (select, commas, asc, () after an argument-less function) and random mixtures; the parsed Query of the real parser must be identical to that of the canonical rendering, and (sampled) the binary's output identical. non-trivial = a rendering that differs textually from the canonical one",
+        rule="valid queries from a typed generator (1-4 columns incl. functions/arithmetic, or aggregates with count(*) in either bracket style, root options (after FROM, or directly after the columns in a query without FROM), WHERE with all operator kinds, brackets, GROUP BY (directly after the root options and after WHERE), ORDER BY, LIMIT, INTO) x renderings: with and without the leading `select` (always, and always run on the binary), split at every whitespace, random split sets (keeping the search root alone in its argument, see F23), EVERY alias of every aliased token one at a time (alias groups read from the regenerated Field / Function / Op / arithmetic tables), a case variant of every word, the other bracket style, every alias of the safe columns and of several functions as the first word of the command line with and without `select`; optional tokens (select, commas, asc, () after an argument-less function) and random mixtures; the parsed Query of the real parser must be identical to that of the canonical rendering, and (sampled) the binary's output identical. non-trivial = a rendering that differs textually from the canonical one",
         samples=st["samples"], distribution=dict(st["hist"]))
     return ctx.finish(trusted=["the alias groups are the ones the source's own lookup tables define (regenerated on this run); docs/usage.md is compared with them in props/C11.v"])
